@@ -78,8 +78,36 @@ def run(tier, seed, rng):
                 for pre in ([bytes([a]) for a in alpha] + [b'a\\', b'X ']):
                     G.add_unpack(0, pre + raw, len(pre))
             zgroups.append(G)
-    records, disagreements = pktcases.run_groups(groups + zgroups, 'c14')
-    zrecs = [r for r in records if r['group'] >= 100000 and r['kind'] == 'roundtrip']
+    # ---- moves that land on the very first byte of the packet (position 0 when parsed at offset 0): backward shifts and at(0),
+    # parsed directly (such packets re-read a byte, so they cannot be produced by pack()); modelled groups
+    bgroups = []
+    for bi, (mv, k) in enumerate([(('const', -1), 1), (('const', -2), 2), (('const', -1), 2), (('const', 0), 1)]):
+        ref = 'RInner' if mv[1] == 0 else 'RCur'
+        fields = [{'move': None, 'body': ('elem', ('leaf', ('int', 1, False, None, 0)))} for _ in range(k)]
+        fields.append({'move': (mv, ref, False, 'at' if mv[1] == 0 else 'shift'), 'body': ('elem', ('leaf', ('int', 1, False, None, 0)))})
+        fields.append({'move': None, 'body': ('elem', ('leaf', ('int', 2, False, None, 0)))})
+        for gen_u in (True, False):
+            table = {0: dict(end=None, align=None, sbl=None, gp=True, gu=gen_u, vec=True, ann=True, fields=fields)}
+            G = pktcases.Group(table, 200000 + len(bgroups))
+            for _ in range(4):
+                raw = bytes(rng.randrange(1, 256) for _ in range(k + 3))
+                G.add_unpack(0, raw, 0)
+                for pre in (b'P', b'PQR'):
+                    G.add_unpack(0, pre + raw, len(pre))
+            bgroups.append(G)
+    records, disagreements = pktcases.run_groups(groups + zgroups + bgroups, 'c14')
+    zrecs = [r for r in records if 100000 <= r['group'] < 200000 and r['kind'] == 'roundtrip']
+    brecs = [r for r in records if r['group'] >= 200000 and r['kind'] == 'roundtrip']
+    bfail, bbase = [], None
+    for r in brecs:
+        if r['offset'] == 0:
+            bbase = r
+            continue
+        if bbase is None or not r['raw'].endswith(bbase['raw']) or r['group'] != bbase['group']:
+            continue
+        want = shift_outcome(bbase['outcome'], r['offset'])
+        if view(r['outcome']) != view(want):
+            bfail.append((bbase, r, want))
     zfail = []
     base = None
     for r in zrecs:
@@ -141,6 +169,11 @@ def run(tier, seed, rng):
                     failures.append(dict(kind='oracle', sig='context-suffix', what='bytes appended after the parsed region changed a successful parse',
                                          classes=cls, cls=decl.cname(r['c']), raw=b['raw'].hex(), raw_with_context=r['raw'].hex(),
                                          offset=r['offset'], observed=view(orr), required=view(want)))
+    dist['first_byte_move_pairs'] = sum(1 for r in brecs if r['offset'] != 0)
+    for b, r, want in bfail[:20]:
+        failures.append(dict(kind='oracle', sig='context-prefix-move0', what='a packet with a move landing on its first byte parses differently at offset 0 and behind a prefix',
+                             classes=pktprops.class_source(bgroups, r['group']), cls='K0', raw=b['raw'].hex(), raw_with_context=r['raw'].hex(),
+                             offset=r['offset'], observed=view(r['outcome']), required=view(want)))
     dist['regex_zoo_pairs'] = sum(1 for r in zrecs if r['offset'] != 0)
     for b, r, want in zfail[:20]:
         failures.append(dict(kind='oracle', sig='context-prefix-regex', what='a regex-delimited field parses differently depending on the bytes BEFORE the start offset',
